@@ -6,6 +6,7 @@ import sx
 PID = "C16"
 RUNNER = "impl_m3.py"
 N = {"quick": 2500, "thorough": 80000}
+VM_CROSSCHECK = True
 LEVEL_RULE = ("DAG-shaped event trees: the same leaf object and the same sub-container object referenced several times, at "
               "different depths (ids mark identity), depth <= 4; a parameter defined on all / some / no leaves. Case kinds: "
               "set_parameter with a function (call counter) or a plain value, with and without set_unassigned_parameter; "
